@@ -7,6 +7,7 @@ from ..cfg import calls_in_node
 from ..contain import protecting_handler
 from ..framework import stores_to_name, assigned_values
 from . import common
+from .. import exprs as X
 
 EXPLANATION = (
     "PARTIAL.  Not decided: the 'iff' over all values (what each user validator accepts).  Decided: "
@@ -47,8 +48,23 @@ def rule_reserved(chk):
     head = loops[0]
     region = common.loop_region(cfg, head)
     tests = [t for t in tests if t in region and t.exprs[0].left.id == head.ast.target.id]
+    allowed_parts = None
+    if len(tests) != 1:
+        # `key not in A and key not in B` (one test or nested tests): the raise is reached exactly when the key is in none of them
+        kv = head.ast.target.id if isinstance(head.ast.target, ast.Name) else None
+        raises_ = [n for n in region if n.kind == "raise_stmt"]
+        if len(raises_) == 1 and kv:
+            facts = []
+            gts = [(t, lab) for t, lab in cfg.guards_of(raises_[0]) if t.kind == "test" and t in region]
+            for t, lab in gts:
+                facts += X.atomic_facts(t.exprs[0], lab)
+            mem = [e.comparators[0] for e, truth in facts if isinstance(e, ast.Compare) and len(e.ops) == 1 and isinstance(e.ops[0], ast.In)
+                   and isinstance(e.left, ast.Name) and e.left.id == kv and truth is False]
+            if facts and len(mem) == len(facts):
+                allowed_parts = mem
+                tests = [gts[0][0]]
     chk.need(len(tests) == 1, "_MessageSerializer.validate: `key not in <allowed>` test not found")
-    allowed = tests[0].exprs[0].comparators[0]
+    allowed = tests[0].exprs[0].comparators[0] if allowed_parts is None else None
 
     def operands(e):
         e2 = e
@@ -64,7 +80,7 @@ def rule_reserved(chk):
                 out += operands(a)
             return out
         return [e2]
-    ops = operands(allowed)
+    ops = operands(allowed) if allowed_parts is None else [o for a_ in allowed_parts for o in operands(a_)]
     declared = 0
     const = set()
     unknown = []
@@ -136,7 +152,7 @@ def rule_shape(chk, head2, test2):
     problems = []
     if any(n.kind in ("break", "continue", "return") for n in region):
         problems.append("the declared-fields loop can stop or skip before all fields were checked")
-    from .. import exprs as X
+
 
     def absent_label(t):
         """the branch label of test t that means: the declared key is absent from the message (or None)"""
@@ -163,7 +179,7 @@ def rule_shape(chk, head2, test2):
     # exits: early return only under allow_additional_fields; otherwise through the no-extras loop
     rets = common.returns_of(cfg)
     problems = []
-    from .. import exprs as X
+
 
     def allow_edge(t, lab):
         """taking this branch means allow_additional_fields is true"""
@@ -181,7 +197,11 @@ def rule_shape(chk, head2, test2):
         problems.append("the declared-fields check does not come first")
     r2 = common.loop_region(cfg, head2)
     rs = [n for n in r2 if n.kind == "raise_stmt" and "ValidationError" in unparse(n.ast)]
-    notin = isinstance(test2.exprs[0].ops[0], ast.NotIn)
+    if isinstance(test2.exprs[0], ast.Compare):
+        notin = isinstance(test2.exprs[0].ops[0], ast.NotIn)
+    else:
+        # a conjunction / disjunction of membership tests: the raising branch is the one that dominates the raise
+        notin = bool(rs) and all(cfg.edge_dominates(test2, "true", n) for n in rs)
     declared_edge = (test2, "false" if notin else "true")     # the branch taken for a declared / reserved key
     body2 = [s_ for s_, l in head2.succ if l == "body"]
     every_undeclared_raises = bool(rs) and cfg.must_pass(body2, [head2, cfg.exit], rs, avoid_edges={declared_edge}, skip_labels=("exc",))[0]
@@ -198,7 +218,7 @@ def rule_shape(chk, head2, test2):
         and any(t.kind == "test" and unparse(t.exprs[0]) == "self._extraValidator is not None" and lab == "true" for t, lab in fcfg.guards_of(ec[0])) \
         and fcfg.must_pass([fcfg.entry], [fcfg.exit], ec, avoid_edges={(t, "false") for t in fcfg.live if t.kind == "test" and unparse(t.exprs[0]) == "self._extraValidator is not None"})[0]
     chk.req(okfv, "C14.shape", "Field.validate:serializer-then-extra-validator", chk.where(fv), good="serializer(input) always; extraValidator(input) when present", fail="Field.validate does not run the serializer and then the extra validator (when present) on the value")
-    from .. import exprs as X
+
 
     def installed_validator(outer):
         """the nested function handed to the Field constructor as its extra validator (4th positional / extraValidator=) on the single return"""
@@ -451,6 +471,33 @@ def rule_order_and_restore(chk):
             problems.append("the restoring cleanup is not registered with addCleanup before the test function is called")
     elif len(inst) != 1 or not isinstance(inst[0][0].ast, ast.Assign):
         problems.append("the wrapper does not install the logger with exactly one swap_logger(logger) whose result is kept")
+    elif not isinstance(inst[0][0].ast.targets[0], ast.Name):
+        # the previous logger is kept somewhere else than in a local: who restores it, and is that guaranteed?
+        has_cleanup = any(isinstance(c.func, ast.Attribute) and c.func.attr == "addCleanup" for n in wcfg.live for c, m in calls_in_node(n))
+        has_finally = any(isinstance(x, ast.Try) and x.finalbody for x in iter_own_nodes(w.node))
+        if has_cleanup or has_finally:
+            raise AnalysisError("capture_logging: the previous logger is kept in %s and restored by a cleanup / finally the analyser does not model" % unparse(inst[0][0].ast.targets[0])[:40])
+        fam = [g for g in ctx.p.mod("testing").funcs.values() if g.qualname.startswith("capture_logging.") and g is not w]
+        restorers = [g for g in fam if any(isinstance(x, ast.Call) and sw in ctx.targets(g, x) for x in iter_own_nodes(g.node))]
+        witness = None
+        for r_ in restorers:
+            for g in fam:
+                if g is r_:
+                    continue
+                gcfg = ctx.cfg(g)
+                rcalls = [n for n in gcfg.live for c, m in calls_in_node(n) if isinstance(c.func, ast.Name) and c.func.id == r_.name]
+                if not rcalls or any(isinstance(x, ast.Try) and x.finalbody for x in iter_own_nodes(g.node)):
+                    continue
+                before = [(n, c) for n in gcfg.live for c, m in calls_in_node(n) if n not in rcalls and not (isinstance(c.func, ast.Name) and c.func.id == r_.name)
+                          and gcfg.precedes([n], rcalls)[0] is not None and n in gcfg.reach([gcfg.entry]) and any(rc in gcfg.reach([n]) for rc in rcalls)]
+                if before:
+                    witness = (g, r_, before[0][1])
+        if witness is not None:
+            g, r_, c = witness
+            problems.append("the wrapper registers no cleanup and has no finally; the previous logger is put back by %s(), which %s calls only after %s returns: when that call raises "
+                            "(a failing assertion), the test's MemoryLogger stays installed as the default logger for every later test" % (r_.name, g.name, unparse(c)[:50]))
+        else:
+            raise AnalysisError("capture_logging: the previous logger is kept in %s; how it is restored is not modelled" % unparse(inst[0][0].ast.targets[0])[:40])
     else:
         prev = inst[0][0].ast.targets[0].id
         direct = [n for n in wcfg.live for c, m in calls_in_node(n) if isinstance(c.func, ast.Attribute) and c.func.attr == "addCleanup" and len(c.args) == 2
